@@ -2,13 +2,20 @@ package main
 
 import (
 	"encoding/json"
+	"fmt"
+	"os"
+	"os/exec"
+	"path/filepath"
 	"sort"
+	"strings"
+	"time"
 )
 
 type Cex struct {
 	Property   string            `json:"property"`
 	Harness    string            `json:"harness"`
 	Package    string            `json:"package"`
+	PkgName    string            `json:"pkgname"`
 	Config     string            `json:"config"`
 	Tags       string            `json:"tags"`
 	Cases      map[string]int    `json:"cases"`
@@ -21,7 +28,7 @@ type Cex struct {
 	Abstract   bool              `json:"abstract"` // model includes values chosen for contract/stub outputs
 }
 
-func writeCex(path, prop string, r *ObRun, ob *Oblig) {
+func writeCex(path, prop string, r *ObRun, ob *Oblig) *Cex {
 	cx := Cex{Property: prop, Harness: r.Dir.Func, Package: r.Dir.Pkg, Config: r.Ld.config, Tags: r.Ld.tags, Cases: r.Cases,
 		Obligation: ob.Name, Kind: ob.Kind, Pos: ob.Pos, Mode: ob.Mode, Backend: ob.Solver, Inputs: map[string]string{}}
 	var ks []string
@@ -32,7 +39,140 @@ func writeCex(path, prop string, r *ObRun, ob *Oblig) {
 	for _, k := range ks {
 		cx.Inputs[k] = ob.Model[k].String()
 	}
-	cx.Abstract = len(r.Uses) > 0
+	cx.Abstract = len(r.Uses) > 0 && !ob.Concrete
+	cx.PkgName = r.Ld.pkgs[r.Dir.Pkg].Pkg.Name()
 	b, _ := json.MarshalIndent(cx, "", " ")
 	writeFile(path, string(b)+"\n")
+	return &cx
+}
+
+// ---------- native replay ----------
+
+type replayResult struct {
+	Status string // reproduced | not-reproduced | skipped | error
+	Detail string
+}
+
+func pkgDirOf(pkgPath string) string {
+	return strings.TrimPrefix(strings.TrimPrefix(pkgPath, modPath), "/")
+}
+
+func replayNative(cx *Cex, cexPath string) replayResult {
+	tmp, err := os.MkdirTemp("", "voireplay")
+	if err != nil {
+		return replayResult{"error", err.Error()}
+	}
+	defer os.RemoveAll(tmp)
+	rep := map[string]string{}
+	root := filepath.Join(verifDir, "harness")
+	ents, _ := os.ReadDir(root)
+	for _, e := range ents {
+		if !e.IsDir() {
+			continue
+		}
+		pkgDir := strings.ReplaceAll(e.Name(), "__", "/")
+		files, _ := os.ReadDir(filepath.Join(root, e.Name()))
+		for _, f := range files {
+			if !strings.HasSuffix(f.Name(), ".go") {
+				continue
+			}
+			name := f.Name()
+			if pkgDir != "internal/verif" {
+				name = "zz_verif_" + name
+			}
+			rep[filepath.Join(repoDir, pkgDir, name)] = filepath.Join(root, e.Name(), f.Name())
+		}
+	}
+	pd := pkgDirOf(cx.Package)
+	pkgName := filepath.Base(pd)
+	if pd == "" {
+		pkgName = "curve25519voi"
+	}
+	if cx.PkgName != "" {
+		pkgName = cx.PkgName
+	}
+	testSrc := fmt.Sprintf(`//go:build verif
+
+package %s
+
+import (
+	"fmt"
+	"testing"
+
+	"%s"
+)
+
+func TestZZReplay(t *testing.T) {
+	defer func() {
+		switch x := recover().(type) {
+		case nil:
+			fmt.Println("REPLAY: NOFAILURE")
+		case verif.Failure:
+			fmt.Println("REPLAY: REPRODUCED assertion:", x.Msg)
+		case verif.Skip:
+			fmt.Println("REPLAY: SKIP", x.Msg)
+		default:
+			fmt.Println("REPLAY: PANIC", x)
+		}
+	}()
+	%s()
+}
+`, pkgName, verifPkgPath, cx.Harness)
+	testFile := filepath.Join(tmp, "replay_test.go")
+	os.WriteFile(testFile, []byte(testSrc), 0o644)
+	rep[filepath.Join(repoDir, pd, "zz_verif_replay_test.go")] = testFile
+	ovb, _ := json.Marshal(map[string]interface{}{"Replace": rep})
+	ovFile := filepath.Join(tmp, "overlay.json")
+	os.WriteFile(ovFile, ovb, 0o644)
+	abs, _ := filepath.Abs(cexPath)
+	cmd := exec.Command("go", "test", "-vet=off", "-count=1", "-overlay", ovFile, "-tags", cx.Tags, "-run", "^TestZZReplay$", "-v", "./"+pd)
+	cmd.Dir = repoDir
+	cmd.Env = append(os.Environ(), "VERIF_REPLAY="+abs, "GOFLAGS=-mod=mod", "GOPROXY=off", "GOSUMDB=off", "GOTOOLCHAIN=local", "GOCACHE="+filepath.Join(os.TempDir(), "voiverif-gocache"))
+	done := make(chan struct{})
+	var out []byte
+	go func() { out, err = cmd.CombinedOutput(); close(done) }()
+	select {
+	case <-done:
+	case <-time.After(10 * time.Minute):
+		if cmd.Process != nil {
+			cmd.Process.Kill()
+		}
+		return replayResult{"error", "native replay timed out"}
+	}
+	for _, l := range strings.Split(string(out), "\n") {
+		l = strings.TrimSpace(l)
+		if !strings.HasPrefix(l, "REPLAY:") {
+			continue
+		}
+		switch {
+		case strings.HasPrefix(l, "REPLAY: REPRODUCED"):
+			return replayResult{"reproduced", l}
+		case strings.HasPrefix(l, "REPLAY: PANIC"):
+			if cx.Kind == "panic" || cx.Kind == "bounds" {
+				return replayResult{"reproduced", l}
+			}
+			return replayResult{"reproduced", l + " (run-time panic in the real code)"}
+		case strings.HasPrefix(l, "REPLAY: SKIP"):
+			return replayResult{"skipped", l}
+		case strings.HasPrefix(l, "REPLAY: NOFAILURE"):
+			return replayResult{"not-reproduced", l}
+		}
+	}
+	tail := string(out)
+	if len(tail) > 1500 {
+		tail = tail[len(tail)-1500:]
+	}
+	return replayResult{"error", "no REPLAY line: " + tail}
+}
+
+func readCex(path string) (*Cex, error) {
+	b, err := os.ReadFile(path)
+	if err != nil {
+		return nil, err
+	}
+	var cx Cex
+	if err := json.Unmarshal(b, &cx); err != nil {
+		return nil, err
+	}
+	return &cx, nil
 }
